@@ -16,16 +16,21 @@ theorem ran_from (key : Nat → Nat) (fval : Nat → V) (s : St V) (h : Reachabl
   | @step s s' i hr hs ih =>
     intro k v hv
     unfold step at hs
-    cases hpc : s.pc i <;> simp only [hpc] at hs <;> (try split at hs) <;> (try simp at hs) <;> (try subst hs) <;>
-      (try exact ih k v hv)
-    simp only at hv
-    by_cases hk : k = key i
-    · subst hk
-      simp only [upd_same] at hv
-      cases hran : s.ran (key i) with
-      | none => simp [hran] at hv; exact ⟨i, rfl, hv⟩
-      | some w => simp [hran] at hv; subst hv; exact ih _ _ hran
-    · rw [upd_other _ _ _ _ hk] at hv; exact ih k v hv
+    by_cases hpc : s.pc i = .runF
+    · simp only [hpc, Option.some.injEq] at hs
+      subst hs
+      simp only at hv
+      by_cases hk : k = key i
+      · subst hk
+        simp only [upd_same] at hv
+        cases hran : s.ran (key i) with
+        | none => simp only [hran, Option.some.injEq] at hv; exact ⟨i, rfl, hv⟩
+        | some w => simp only [hran, Option.some.injEq] at hv; subst hv; exact ih _ _ hran
+      · rw [upd_other _ _ _ _ hk] at hv; exact ih k v hv
+    · have hran : s'.ran = s.ran := by
+        cases hpc' : s.pc i <;> simp only [hpc'] at hs hpc <;> (try exact absurd trivial hpc) <;>
+          (try split at hs) <;> (try simp at hs) <;> (try subst hs) <;> (try rfl)
+      rw [hran] at hv; exact ih k v hv
 
 /-- **With an honest server — the fetch result depends only on the key — every caller that has returned got the
 server's answer for its key, in every interleaving.** -/
